@@ -399,11 +399,18 @@ func (c *consumerGroup) consumerExpired(consumerID string) func() {
 		if err := c.memberExpiredHandler(c.id, consumerID); err != nil {
 			c.logger.Errorf("Failed to remove consumer %s from consumer group %s: %v",
 				consumerID, c.id, err.Error())
-			// Reset the timer so we can try again later.
-			timer := c.startMemberTimer(consumerID)
+			// Reset the timer so we can try again later. There is nothing to
+			// retry if the consumer has left the group (or the group was
+			// closed) or this server stopped being the coordinator while the
+			// removal was in flight.
 			c.mu.Lock()
-			consumer := c.members[consumerID]
-			consumer.timer = timer
+			if consumer, ok := c.members[consumerID]; ok && c.coordinator == c.serverID {
+				// A heartbeat may have re-armed the expired timer meanwhile.
+				if consumer.timer != nil {
+					consumer.timer.Stop()
+				}
+				consumer.timer = c.startMemberTimer(consumerID)
+			}
 			c.mu.Unlock()
 		}
 	}
